@@ -1,8 +1,9 @@
 import SaModel.Lemmas.C03TypeOf
 /-
-`newDT_strict`: whatever `build_builder` accepts is a strict type (`StrictDT`: dense unions, Map entries not nullable)
-up to the metadata of Map entries fields (`PlainDT`, the exclusion of the KNOWN finding C03-map-entries-metadata).
-By `newDT.mutual_induct`, like `newDT_builtFor` (Lemmas/C03New.lean).
+`newDT_strict_all` (corollaries `newB_strict`, `newFields_strict`, `newRoot_strict`): whatever `build_builder` accepts is
+a strict type (`StrictDT`: dense unions, Map entries not nullable) up to the metadata of Map entries fields (`PlainDT`, the
+exclusion of the KNOWN finding C03-map-entries-metadata).  By `newDT.mutual_induct`, like `newDT_builtFor`
+(Lemmas/C03New.lean).
 -/
 namespace SaModel.Lemmas.C03
 open SaModel SaModel.Build SaModel.Spec
